@@ -387,3 +387,96 @@ Proof.
     + rewrite rg_streq_p. exact K4.
     + apply rgl_ts_def_kw_none; assumption.
 Qed.
+
+(* ------------------------------------------------------------------ every definition of the relaxed grammar consumes a token *)
+Ltac rl_nl known :=
+  repeat first
+    [ match goal with
+      | |- rg_nolonger (rg_seq _ _) => apply rg_nolonger_seq
+      | |- rg_nolonger (rg_opt _ _) => apply rg_nolonger_opt
+      | |- rg_nolonger (rg_many _ _) => apply rg_nolonger_many
+      | |- rg_nolonger (rg_peek _) => apply rg_nolonger_peek
+      | |- rg_nolonger (rg_sat _) => apply rg_progress_nolonger, rg_progress_sat
+      | |- rg_nolonger rg_name => apply rg_progress_nolonger, rg_progress_sat
+      | |- rg_nolonger (rg_plus _ _) => apply rg_progress_nolonger, rg_progress_plus
+      | |- rg_nolonger (rgl_directives _ _) => apply rgl_directives_nolonger
+      end
+    | known ].
+
+Lemma rg_implements_nolonger : rg_nolonger rg_implements.
+Proof. unfold rg_implements. rl_nl idtac. Qed.
+Lemma rg_unionmembers_nolonger : rg_nolonger rg_unionmembers.
+Proof. unfold rg_unionmembers. rl_nl idtac. Qed.
+Lemma rg_dirlocs_nolonger : rg_nolonger rg_dirlocs.
+Proof. unfold rg_dirlocs. rl_nl idtac. Qed.
+Lemma rgl_selset_nolonger : rg_nolonger (rgl_selset LP).
+Proof. intros ts r H. apply rg_progress_nolonger in H; [exact H|]. intros ts0 r0. apply (proj1 (rgl_sel_progress _)). Qed.
+Lemma rgl_vardefs_nolonger : rg_nolonger (rgl_vardefs LP).
+Proof. unfold rgl_vardefs. rl_nl ltac:(apply rgl_vardef_progress). Qed.
+Lemma rgl_op_tail_nolonger : rg_nolonger (rgl_op_tail LP).
+Proof. unfold rgl_op_tail. rl_nl ltac:(first [apply rgl_vardefs_nolonger|apply rgl_selset_nolonger]). Qed.
+Lemma rgl_fragment_tail_nolonger : rg_nolonger (rgl_fragment_tail LP).
+Proof. unfold rgl_fragment_tail. rl_nl ltac:(apply rgl_selset_nolonger). Qed.
+Lemma rgl_rootops_nolonger : rg_nolonger (rgl_rootops LP).
+Proof. unfold rgl_rootops. rl_nl ltac:(apply rgl_rootop_progress). Qed.
+Lemma rgl_rootops0_nolonger : rg_nolonger (rgl_rootops0 LP).
+Proof. unfold rgl_rootops0. rl_nl ltac:(apply rg_progress_nolonger, rgl_rootop_progress). Qed.
+Lemma rgl_argsdef_nolonger : rg_nolonger (rgl_argsdef LP).
+Proof. unfold rgl_argsdef. rl_nl ltac:(apply rgl_inputvaldef_progress). Qed.
+Lemma rgl_fieldsdef_nolonger : rg_nolonger (rgl_fieldsdef LP).
+Proof. unfold rgl_fieldsdef. rl_nl ltac:(apply rgl_fielddef_progress). Qed.
+Lemma rgl_inputfieldsdef_nolonger : rg_nolonger (rgl_inputfieldsdef LP).
+Proof. unfold rgl_inputfieldsdef. rl_nl ltac:(apply rgl_inputvaldef_progress). Qed.
+Lemma rgl_enumvalsdef_nolonger : rg_nolonger (rgl_enumvalsdef LP).
+Proof. unfold rgl_enumvalsdef. rl_nl ltac:(apply rgl_enumvaldef_progress). Qed.
+Lemma rgl_schema_tail_nolonger : rg_nolonger (rgl_schema_tail LP).
+Proof. unfold rgl_schema_tail. rl_nl ltac:(apply rgl_rootops_nolonger). Qed.
+Lemma rgl_object_tail_nolonger : rg_nolonger (rgl_object_tail LP).
+Proof. unfold rgl_object_tail. rl_nl ltac:(first [apply rg_implements_nolonger|apply rgl_fieldsdef_nolonger]). Qed.
+Lemma rgl_union_tail_nolonger : rg_nolonger (rgl_union_tail LP).
+Proof. unfold rgl_union_tail. rl_nl ltac:(apply rg_unionmembers_nolonger). Qed.
+Lemma rgl_enum_tail_nolonger : rg_nolonger (rgl_enum_tail LP).
+Proof. unfold rgl_enum_tail. rl_nl ltac:(apply rgl_enumvalsdef_nolonger). Qed.
+Lemma rgl_input_tail_nolonger : rg_nolonger (rgl_input_tail LP).
+Proof. unfold rgl_input_tail. rl_nl ltac:(apply rgl_inputfieldsdef_nolonger). Qed.
+Lemma rgl_dirdef_tail_nolonger : rg_nolonger (rgl_dirdef_tail LP).
+Proof. unfold rgl_dirdef_tail. rl_nl ltac:(first [apply rgl_argsdef_nolonger|apply rg_dirlocs_nolonger]). Qed.
+Lemma rgl_schema_ext_tail_nolonger : rg_nolonger (rgl_schema_ext_tail LP).
+Proof.
+  assert (H1 : rg_nolonger (rg_seq (rgl_directives LP true) (rg_opt (rg_is TkLCurly) (rgl_rootops0 LP))))
+    by (rl_nl ltac:(apply rgl_rootops0_nolonger)).
+  assert (H2 : rg_nolonger (rg_seq (rg_peek (rg_is_at_or TkLCurly))
+                 (rg_seq (rgl_directives LP true) (rg_opt (rg_is TkLCurly) (rgl_rootops LP)))))
+    by (rl_nl ltac:(apply rgl_rootops_nolonger)).
+  intros ts r. unfold rgl_schema_ext_tail. destruct (_ && _); [apply H1|apply H2].
+Qed.
+
+Definition rg_dnolonger (d : rg_dp) : Prop := forall ts x, d ts = RgOk x -> (length (snd x) <= length ts)%nat.
+Lemma rg_dnolonger_ret x p : rg_nolonger p -> rg_dnolonger (rg_ret x p).
+Proof.
+  intros Hp ts y. unfold rg_ret, rg_bind. destruct (p ts) as [r| |] eqn:E; try discriminate. intros [= <-]. cbn.
+  exact (Hp _ _ E).
+Qed.
+Lemma rg_dnolonger_named k p : rg_nolonger p -> rg_dnolonger (rg_named k p).
+Proof.
+  intros Hp ts y. unfold rg_named. destruct ts as [|[[] w] r]; try discriminate. intros H.
+  apply (rg_dnolonger_ret _ _ Hp) in H. change (length ((TkName, w) :: r)) with (S (length r)). lia.
+Qed.
+
+Lemma rgl_ts_def_kw_nolonger : rg_dnolonger (rgl_ts_def_kw LP).
+Proof.
+  intros ts x. unfold rgl_ts_def_kw. destruct ts as [|[k w] r]; [discriminate|]. destruct k; try discriminate.
+  assert (Hn : forall (d : rg_dp), rg_dnolonger d -> d r = RgOk x -> (length (snd x) <= length ((TkName, w) :: r))%nat).
+  { intros d Hd H. apply Hd in H. change (length ((TkName, w) :: r)) with (S (length r)). lia. }
+  repeat match goal with |- context [if rg_streq ?a ?b then _ else _] => destruct (rg_streq a b) end; try discriminate.
+  - apply Hn, rg_dnolonger_ret, rgl_schema_tail_nolonger.
+  - apply Hn, rg_dnolonger_named. unfold rgl_scalar_tail. apply rgl_directives_nolonger.
+  - apply Hn, rg_dnolonger_named, rgl_object_tail_nolonger.
+  - apply Hn, rg_dnolonger_named, rgl_object_tail_nolonger.
+  - apply Hn, rg_dnolonger_named, rgl_union_tail_nolonger.
+  - apply Hn, rg_dnolonger_named, rgl_enum_tail_nolonger.
+  - apply Hn, rg_dnolonger_named, rgl_input_tail_nolonger.
+  - destruct r as [|[k2 w2] r2]; [discriminate|]. destruct k2; try discriminate. intros H.
+    apply (rg_dnolonger_named _ _ rgl_dirdef_tail_nolonger) in H.
+    change (length ((TkName, w) :: (TkAt, w2) :: r2)) with (S (S (length r2))). lia.
+Qed.
